@@ -285,6 +285,31 @@ def rule_mem(ctx: Ctx) -> List[Ob]:
     return obs
 
 
+def _empty_label(at: ast.AST, names) -> Optional[bool]:
+    """edge label of the test atom `at` on which the container (one of `names`) is EMPTY; None if it is not such a test"""
+    if isinstance(at, ast.Compare) and len(at.ops) == 1 and isinstance(at.left, ast.Call) and dotted(at.left.func) == "len" \
+            and at.left.args and src(at.left.args[0]) in names and isinstance(at.comparators[0], ast.Constant):
+        c, op = at.comparators[0].value, at.ops[0]
+        if c == 0:
+            return True if isinstance(op, (ast.Eq, ast.LtE)) else False if isinstance(op, (ast.Gt, ast.NotEq)) else None
+        if c == 1:
+            return True if isinstance(op, ast.Lt) else False if isinstance(op, ast.GtE) else None
+        return None
+    if isinstance(at, ast.Compare) and len(at.ops) == 1 and isinstance(at.comparators[0], ast.Call) and dotted(at.comparators[0].func) == "len" \
+            and at.comparators[0].args and src(at.comparators[0].args[0]) in names and isinstance(at.left, ast.Constant):
+        c, op = at.left.value, at.ops[0]          # 0 == len(X), 0 < len(X), 1 > len(X) ...
+        if c == 0:
+            return True if isinstance(op, (ast.Eq, ast.GtE)) else False if isinstance(op, (ast.Lt, ast.NotEq)) else None
+        if c == 1:
+            return True if isinstance(op, ast.Gt) else False if isinstance(op, ast.LtE) else None
+        return None
+    if isinstance(at, ast.Name) and at.id in names:
+        return False                                  # truth value of the container: `if X:` / `if not X:`
+    if isinstance(at, ast.Call) and dotted(at.func) in ("len", "bool") and len(at.args) == 1 and src(at.args[0]) in names:
+        return False
+    return None
+
+
 def _classify_insertion(ctx, f, cfg, n: Node, c: ast.Call, cname, other, Xn, Gn, isup) -> Tuple[Optional[str], str]:
     meth = c.func.attr
     val = c.args[0] if c.args else None
@@ -296,12 +321,8 @@ def _classify_insertion(ctx, f, cfg, n: Node, c: ast.Call, cname, other, Xn, Gn,
         if t.kind != "test":
             continue
         at = t.ast
-        if isinstance(at, ast.Compare) and len(at.ops) == 1 and isinstance(at.left, ast.Call) and dotted(at.left.func) == "len" \
-                and at.left.args and src(at.left.args[0]) in (Xn, Gn) and isinstance(at.comparators[0], ast.Constant) \
-                and at.comparators[0].value == 0:
-            empty_lab = True if isinstance(at.ops[0], ast.Eq) else False if isinstance(at.ops[0], (ast.Gt, ast.NotEq)) else None
-            if empty_lab is None:
-                continue
+        empty_lab = _empty_label(at, (Xn, Gn))
+        if empty_lab is not None:
             reach = cfg.reachable(cfg.entry, follow_exc=False, edge_ok=lambda a, b, lab: not (a is t and lab is empty_lab))
             if n not in reach:
                 return "seed", f"only reachable when `{short(at)}` says the history is empty"
@@ -443,10 +464,8 @@ def rule_filt(ctx: Ctx) -> List[Ob]:
     # an empty history has no pair that could violate the curvature condition
     seeds = set()
     for t in cfg.nodes:
-        if t.kind == "test" and isinstance(t.ast, ast.Compare) and len(t.ast.ops) == 1 and isinstance(t.ast.left, ast.Call) \
-                and dotted(t.ast.left.func) == "len" and t.ast.left.args and src(t.ast.left.args[0]) in (mm.X, mm.G) \
-                and isinstance(t.ast.comparators[0], ast.Constant) and t.ast.comparators[0].value == 0:
-            lab = True if isinstance(t.ast.ops[0], ast.Eq) else False if isinstance(t.ast.ops[0], (ast.Gt, ast.NotEq)) else None
+        if t.kind == "test":
+            lab = _empty_label(t.ast, (mm.X, mm.G))
             if lab is not None:
                 seeds |= {b for b, l in cfg.succ[t] if l is lab}
     for u in upd_nodes:
